@@ -736,6 +736,7 @@ class Emitter:
         self.decls = []
         self.allocas = []
         self.p2i = {}
+        self.gep_parent = {}
         self.newty = {}
         self.porig = {}
         parsed = {}
@@ -943,6 +944,17 @@ class Emitter:
                 idxs.append((ity, ie, ic))
             expr, rty = self.gep_expr(base, pty, idxs)
             ins.update(expr=expr); self.defvar(res, rty)
+            # remember "address of field K of struct S" so that memcpy of a struct tail can be lowered to field assignments
+            if len(idxs) >= 2 and idxs[-1][2] is not None and idxs[-1][2][0] == 'int':
+                pexpr, prty = self.gep_expr(base, pty, idxs[:-1]) if len(idxs) > 2 else (None, None)
+                if len(idxs) == 2 and idxs[0][2] is not None and idxs[0][2] == ('int', 0):
+                    parent_lv, parent_ty = '(*%s)' % base, pty[1]
+                elif pexpr is not None:
+                    parent_lv, parent_ty = '(*%s)' % pexpr, prty[1]
+                else:
+                    parent_lv = None
+                if parent_lv is not None and self.resolve(parent_ty)[0] == 'struct':
+                    self.gep_parent['v_' + san(res)] = (parent_lv, parent_ty, idxs[-1][2][1])
         elif op in ('bitcast', 'ptrtoint', 'inttoptr', 'trunc', 'zext', 'sext', 'fptosi', 'fptoui', 'sitofp', 'uitofp', 'fpext', 'fptrunc', 'addrspacecast'):
             fty = parse_type(p); v = self.val(p, fty); p.expect('to'); tty = parse_type(p)
             ins.update(fty=fty, v=v, tty=tty); self.defvar(res, tty)
@@ -1181,6 +1193,8 @@ class Emitter:
             if f[0] == 'ptr' and t[0] == 'ptr':
                 if t[1] == ('int', 8) and f[1][0] not in ('func', 'void', 'opaque', 'int'):
                     self.porig[R] = (ins['v'], f[1])
+                if t[1] == ('int', 8) and ins['v'] in self.gep_parent:
+                    self.gep_parent[R] = self.gep_parent[ins['v']]
                 L.append('%s = (%s)%s;' % (R, self.ct(ins['tty']), ins['v']))
             else:
                 L.append('{ %s _s = %s; memcpy(&%s, &_s, sizeof(%s)); }' % (self.ct(ins['fty']), ins['v'], R, R))
@@ -1312,6 +1326,24 @@ class Emitter:
                 out.append('(*%s)%s = %s;' % (d[0], sfx, self.cconst(('zero',), t)))
             return out
         sorig = self.porig.get(av[1])
+        if mm and kind == 'memcpy' and av[0] in self.gep_parent and av[1] in self.gep_parent:
+            (dl, dty, dk), (sl, sty, sk) = self.gep_parent[av[0]], self.gep_parent[av[1]]
+            if dty == sty and dk == sk:
+                r = self.resolve(dty); n = int(mm.group(1))
+                # field offsets of the parent struct
+                off = 0; offs = []
+                for e in r[1]:
+                    s_, a_ = self.layout(e)
+                    if r[2]: a_ = 1
+                    off = (off + a_ - 1) // a_ * a_
+                    offs.append((off, s_)); off += s_
+                start = offs[dk][0]; out = []; k = dk
+                while k < len(offs) and offs[k][0] + offs[k][1] <= start + n:
+                    out.append('%s.f%d = %s.f%d;' % (dl, k, sl, k)); k += 1
+                covered_end = offs[k - 1][0] + offs[k - 1][1] if k > dk else start
+                next_start = offs[k][0] if k < len(offs) else self.layout(dty)[0]
+                if k > dk and covered_end <= start + n <= next_start:
+                    return out     # n bytes = fields dk..k-1 plus padding only
         if not mm or d is None or sorig is None: return None
         n = int(mm.group(1))
         if d[1] != sorig[1]:
@@ -1338,9 +1370,14 @@ class Emitter:
         if kind == 'memset': return None
         d = self.porig.get(av[0]); so = self.porig.get(av[1])
         if d is None or so is None or d[1] != so[1]: return None
+        es = self.layout(d[1])[0]
+        mm = re.fullmatch(r'\(\(u64\)(\d+)ULL\)', av[2])
+        if mm and (es == 0 or int(mm.group(1)) % es != 0):
+            return None     # constant size that is not a whole number of elements (e.g. a struct tail copy): byte-level memcpy
         cty = self.ct(d[1])
         self.need_mm.add(cty)
-        return ['ir2c_%s_%s(%s, %s, (size_t)%s);' % (kind, san(cty), d[0], so[0], av[2])]
+        chk = [] if mm else ['__CPROVER_assert(((size_t)%s %% sizeof(%s)) == 0, "IR2C:typed memcpy size is not a whole number of elements");' % (av[2], cty)]
+        return chk + ['ir2c_%s_%s(%s, %s, (size_t)%s);' % (kind, san(cty), d[0], so[0], av[2])]
 
     def emit_call(self, ins, R):
         c = ins['callee']
